@@ -18,7 +18,11 @@ PROPERTY = "C12"
 LEVEL = "exploration"
 
 NAMES = ["g0", "g1", "g2", "g3"]
-BSLOTS = ["Math.m0", "Math.m1", "JSON.j0", "Object.prototype.o0", "String.s0", "Error.prototype.e0", "Array.a0"]
+BSLOTS = ["Math.m0", "Math.m1", "JSON.j0", "Object.prototype.o0", "String.s0", "Error.prototype.e0", "Array.a0",
+          # every built-in object a context owns
+          "Number.n0", "RegExp.r0", "Date.d0", "console.c0", "Function.prototype.f0", "Boolean.b0", "Int32Array.t0",
+          "TypeError.prototype.te0", "RangeError.prototype.re0", "ArrayBuffer.ab0", "Object.o1", "Error.e1", "Float64Array.fa0",
+          "Uint8Array.ua0", "SyntaxError.prototype.se0", "ReferenceError.re1"]
 LOCALS = ["loc0", "loc1"]
 
 OBSERVE = ("[" + ", ".join(
